@@ -1,11 +1,22 @@
+\* 
 SPECIFICATION TraceSpec
 CONSTANTS
-  N = 3
-  MaxConn = 6
+  N = 6
+  MaxConn = 8
   MaxResend = 3
+  MaxTries = 1
+  MaxDup = 4
+  TcChoices = {TRUE, FALSE}
+  Overlap = TRUE
+  Burst = 0
+  EnvCancel = TRUE
+  EnvClose = TRUE
+  EnvDup = TRUE
   Matching = TRUE
   ReuseBusy = TRUE
   IdleOnCancel = FALSE
+  ForgetKeepsIdle = FALSE
+  DupAccepted = FALSE
   WithHist = FALSE
   Export = FALSE
 CONSTRAINT HWM
